@@ -450,7 +450,12 @@ func (r *foRun) beRead(ctx context.Context, k []byte, real func() (interface{}, 
 
 	c.val, c.err = real()
 	c.retSeq = r.e.s.NextSeq()
-	r.e.logf("be.Read(%q) -> %v, %v", c.key, c.val, c.err)
+	var ei cache.ErrWithExpiredItem
+	if errors.As(c.err, &ei) {
+		r.e.logf("be.Read(%q) -> %v, %v (value %v, expired at %v)", c.key, c.val, c.err, unwrapVal(ei.Value()), ei.ExpiredAt().UTC().Format("15:04:05.000000000"))
+	} else {
+		r.e.logf("be.Read(%q) -> %v, %v", c.key, c.val, c.err)
+	}
 
 	return c.val, c.err
 }
